@@ -38,6 +38,7 @@ PROFILE = {
     'low_flow_prob': 0.05,
     'dT': (5.0, 40.0),
     'n_duct': [1, 1, 2, 3],
+    'ftf_desc_prob': 0.35,
 }
 
 # every combination the input reader accepts (template options)
